@@ -813,6 +813,39 @@ def _bounds(e):
     return None, None
 
 
+def _ieval(e):
+    """value of a closed integer term over 64-bit unsigned operations, or None"""
+    import sympy as sp
+    M = (1 << 64) - 1
+    e = sp.sympify(e)
+    if e.is_Integer:
+        return int(e) & M
+    if e.is_number:
+        return None
+    fn_ = str(getattr(e, 'func', ''))
+    args = [_ieval(a) for a in e.args]
+    if any(a is None for a in args):
+        return None
+    if e.is_Add:
+        return sum(args) & M
+    if e.is_Mul:
+        r = 1
+        for a in args:
+            r = (r * a) & M
+        return r
+    if fn_ == 'i_and':
+        return args[0] & args[1]
+    if fn_ == 'i_or':
+        return args[0] | args[1]
+    if fn_ == 'i_lshr':
+        return args[0] >> args[1] if args[1] < 64 else 0
+    if fn_ == 'i_shl':
+        return (args[0] << args[1]) & M if args[1] < 64 else 0
+    if fn_ == 'i_udiv':
+        return args[0] // args[1] if args[1] else None
+    return None
+
+
 def _nonneg(e):
     """a polynomial in non-negative quantities with non-negative coefficients"""
     import sympy as sp
@@ -921,7 +954,21 @@ def q3(ctx, fns, m):
                             elif hi_ is not None and _nonneg(sp.expand(mem - hi_)):
                                 probs.append('pool grown to %s slots, which does not exceed the %s it had: no room for the recycled node' % (newmem, mem))
                             else:
-                                unks.append('whether the new pool capacity %s exceeds the old one is not decided' % newmem)
+                                # the recorded capacity as a function of the old one alone: evaluate the formula for small pools
+                                bad_at = None
+                                if newmem.free_symbols <= {mem}:
+                                    for v_ in list(range(0, 70)) + [127, 128, 255, 256, 1000, 1024]:
+                                        nv_ = _ieval(newmem.subs(mem, v_))
+                                        if nv_ is None:
+                                            bad_at = None
+                                            break
+                                        if nv_ <= v_:
+                                            bad_at = (v_, nv_)
+                                            break
+                                if bad_at is not None:
+                                    probs.append('with a full pool of %d slots the pool is "grown" to %d slots (%s): no room for the recycled node, which is stored behind the block' % (bad_at[0], bad_at[1], newmem))
+                                else:
+                                    unks.append('whether the new pool capacity %s exceeds the old one is not decided' % newmem)
                         else:
                             probs.append('pool push at index cur_ without a capacity test on path %s' % conds)
             if n == 'a_que_new_':
